@@ -31,6 +31,7 @@ RULES = {
     "R5.2": "the evaluation loop runs at most max_eval_iter kernel applications, chains iterates (kernel applied to the current iterate) and returns an iterate of this loop",
     "R5.3": "change count = reduction over states of an OR-like reduction over action components of (new_policy != self.policy); solve stops iff it is 0",
     "R5.4": "self.values = _evaluate_policy(self.policy) dominates the greedy extraction; the step returns the extracted policy; no later write to self.values in solve",
+    "R5.6": "solve() stops only by its own stability test on this call's improvement step (or at the limit): no return bypasses the improvement loop on remembered state such as a `converged` flag (instance of C08 R8.9 for PolicyIteration)",
     "R5.5": "initial policy = vmap(problem.initial_policy)(state_space), falling back only on NotImplementedError to _extract_policy() under all-zero values; the real initial values are assigned afterwards",
 }
 ASSUMPTIONS = [
@@ -53,8 +54,10 @@ def run(ctx: Context, col) -> None:
     part(_change_count, ctx, cls, file, col)
     part(_ordering, ctx, cls, file, col)
     part(_initial_policy, ctx, cls, file, col)
+    from .c08 import _no_bypass
+    part(_no_bypass, ctx, cls, ctx.solve_loop(cls), col, "R5.6")
     part.finish()
-    for r_, n in (("R5.1", 1), ("R5.2", 3), ("R5.3", 2), ("R5.4", 3), ("R5.5", 4)):
+    for r_, n in (("R5.1", 1), ("R5.2", 3), ("R5.3", 2), ("R5.4", 3), ("R5.5", 4), ("R5.6", 1)):
         col.floor(r_, n)
 
 
